@@ -34,7 +34,7 @@ def _pc_interp(ctx, rf, md, bd, kd, noinline=()):
             return not rf
         return None
 
-    I = Interp(ctx, EVT, "_pre_calcs", pins=pins, cond=cond, kinds={rfm: "index", nrb: "scalar", save: "dict"}, noinline=noinline)
+    I = Interp(ctx, EVT, "_pre_calcs", pins=pins, cond=cond, kinds={rfm: "index", nrb: "count", save: "dict"}, noinline=noinline)
     return fn, I, [p for p in I.paths() if p.status == "return"], (sol, m, b, k, nrb, rfm, save)
 
 
@@ -63,7 +63,7 @@ def _au_interp(ctx, kd, cached, allrb=None, rf=None, lup=None, inline_pc=False):
                 return not lup
         return None
 
-    I = Interp(ctx, EVT, "apply_uf", pins=pins, cond=cond, kinds={rfm: "index", nrb: "scalar", save: "dict"},
+    I = Interp(ctx, EVT, "apply_uf", pins=pins, cond=cond, kinds={rfm: "index", nrb: "count", save: "dict"},
                noinline=() if inline_pc else {"_pre_calcs"})
     return fn, I, [p for p in I.paths() if p.status == "return"], (sol, ufr, m, b, k, nrb, rfm, save)
 
@@ -184,9 +184,10 @@ def r4_cache_purity(ctx):
             nst += _effects(A, P, "apply_uf")
             incache = fact_of(P, ("op", "in", ("c", "genforce"), ("s", save)))
             calls = P.calls("_pre_calcs")
-            loads = any("'genforce'" in repr(P.norm(e.value)) or "'avterm'" in repr(P.norm(e.value)) for e in P.stores())
+            reads = [P.norm(e.value) for e in P.stores() if "'genforce'" in repr(P.norm(e.value)) or "'avterm'" in repr(P.norm(e.value))]
+            fresh_cache = any("('new', 'dict'" in repr(r) for r in reads)
             key = "apply_uf: _pre_calcs fills the cache (once) before it is read when it has no 'genforce' entry"
-            if incache is not True and loads:
+            if reads and (incache is False or fresh_cache):
                 A.req(key, len(calls) == 1, fn, f"{len(calls)} calls on a path that reads an empty cache")
             for c in calls:
                 kw = dict(c.kws)
@@ -287,7 +288,7 @@ def _region(ix, nrb, rfm, save):
 def r5_documented_factors(ctx):
     ruf, euf, duf, suf = (F.sym(x) for x in ("ruf", "euf", "duf", "suf"))
     for kdim in (1, 2):
-        fn, I, paths, (sol, ufr, m, b, k, nrb, rfm, save) = _au_interp(ctx, kdim, True, allrb=False, rf=True, lup=True)
+        fn, I, paths, (sol, ufr, m, b, k, nrb, rfm, save) = _au_interp(ctx, kdim, True, rf=True)
         A_, V_, PG = (F.sym(f"{sol}.{x}") for x in ("a", "v", "pg"))
         GF, AV, K = F.sym(f"{save}['genforce']"), F.sym(f"{save}['avterm']"), F.sym(k)
         tag = f"apply_uf (k {'diagonal' if kdim == 1 else 'full'})"
@@ -305,36 +306,35 @@ def r5_documented_factors(ctx):
             want[("d_static", "rfmodes")] = euf * suf * GF / K
         A = Agg(ctx)
         npg = 0
+        seen = set()
         for P in paths:
-            if fact_of(P, op("gt", ("s", nrb), ("c", 0))) is not True:
-                continue
             ret = P.ret
             o = P.obj(ret)
-            if o is None or o.kind != "ns":
+            if o is None:
                 A.req(f"{tag}: returns the scaled copy of the solution", None, fn, show(P.norm(ret)))
                 continue
             fld = {}
             for nm in ("a", "v", "d_static", "d_dynamic"):
                 fld[P.field(ret, nm)] = nm
             cv = Conv(P, kname=k)
-            got = {}
+            extra = []
             for e in P.stores():
-                if e.target in fld:
-                    got[(fld[e.target], _region(P.norm(e.index), nrb, rfm, save))] = e
-            for key, w in want.items():
-                name = f"{tag}: {key[0]}[{key[1]}] is scaled as documented ({w})"
-                e = got.get(key)
-                if e is None:
-                    A.req(name, False, fn, "not assigned; assigned: " + ", ".join(sorted(f"{a}[{b_}]" for a, b_ in got)))
+                if e.target not in fld:
                     continue
+                key = (fld[e.target], _region(P.norm(e.index), nrb, rfm, save))
+                w = want.get(key)
+                if w is None:
+                    extra.append(f"{key[0]}[{key[1]}]")
+                    continue
+                seen.add(key)
+                name = f"{tag}: {key[0]}[{key[1]}] is scaled as documented ({w})"
                 try:
                     val = cv(e.value)
                     ok = val.equals(w)
                     A.req(name, ok, e.node, None if ok else {"got": repr(val), "documented": repr(w)})
                 except Unsupported as ex:
                     A.req(name, None, e.node, f"{ex}: {show(P.norm(e.value))}")
-            extra = [k_ for k_ in got if k_ not in want]
-            A.req(f"{tag}: no other part of the solution is scaled", not extra, fn, [f"{a}[{b_}]" for a, b_ in extra], nontrivial=False)
+            A.req(f"{tag}: no other part of the solution is scaled", not extra, fn, extra, nontrivial=False)
             pgv = o.fields.get("pg")
             if pgv is not None:
                 npg += 1
@@ -343,19 +343,25 @@ def r5_documented_factors(ctx):
                 except Unsupported:
                     ok = None
                 A.req(f"{tag}: pg is scaled by suf", ok, fn, show(P.norm(pgv)))
+        for key, w in want.items():
+            if key not in seen:
+                A.req(f"{tag}: {key[0]}[{key[1]}] is scaled as documented ({w})", False, fn, "never assigned; assigned: " + ", ".join(sorted(f"{a_}[{b_}]" for a_, b_ in seen)))
         A.req(f"{tag}: pg is scaled by suf", True if npg else None, fn, "no path sets solout.pg")
         A.flush(fn)
     # factor tuple order
-    fn, I, paths, (sol, ufr, m, b, k, nrb, rfm, save) = _au_interp(ctx, 1, True, allrb=True)
+    fn, I, paths, (sol, ufr, m, b, k, nrb, rfm, save) = _au_interp(ctx, 1, True)
     A = Agg(ctx)
+    A.req("apply_uf: factor tuple order is (rigid, elastic, dynamic, static)", True if paths else None, fn)
     for P in paths:
         fr = P.frame
         # a[:nrb] is scaled by element 0 and element 3 of uf_reds: (rigid, elastic, dynamic, static)
         o = P.obj(P.ret)
-        if o is None or fact_of(P, op("gt", ("s", nrb), ("c", 0))) is not True:
+        if o is None:
             continue
         at = P.field(P.ret, "a")
-        st = [e for e in P.stores() if e.target == at]
+        st = [e for e in P.stores() if e.target == at and _region(P.norm(e.index), nrb, rfm, save) == ":nrb"]
+        if not st:
+            continue
         ok = None
         if st:
             try:
@@ -470,7 +476,8 @@ class Spaces:
         self.sol, self.m, self.b, self.k, self.nrb, self.rfm, self.save = names
         self.rf = rf
         self.cache = cache or {}
-        self.bad = []          # (kind, text)
+        self.bad = []          # (kind, text, node)
+        self.node = None
         self.checked = []      # texts
         self.n = ("idx", ("attr", ("attr", ("s", self.sol), "a"), "shape"), ("c", 0))
 
@@ -573,7 +580,7 @@ class Spaces:
                 if it is not None and sp is not None and it[0] != "*":
                     txt = show(P.norm(("idx", t[1], t[2])))
                     if not self.same(it[0], sp) and sp != "T":
-                        self.bad.append(("index-space", f"`{txt}`: axis {bi} of `{show(P.norm(t[1]))}` lives in space {sp} but the index holds positions relative to space {it[0]}"))
+                        self.bad.append(("index-space", f"`{txt}`: axis {bi} of `{show(P.norm(t[1]))}` lives in space {sp} but the index holds positions relative to space {it[0]}", self.node))
                     else:
                         self.checked.append(txt)
                     out.append(it[1])
@@ -595,7 +602,7 @@ class Spaces:
             if n == "matmul" and len(ts) == 2:
                 a_, b_ = ts
                 if a_ and b_ and a_[1] and b_[0] and a_[1] != "T" and not self.same(a_[1], b_[0]):
-                    self.bad.append(("product-space", f"`{show(P.norm(t))}`: columns in space {a_[1]} times rows in space {b_[0]}"))
+                    self.bad.append(("product-space", f"`{show(P.norm(t))}`: columns in space {a_[1]} times rows in space {b_[0]}", self.node))
                 elif a_ and b_ and a_[1] and b_[0]:
                     self.checked.append(show(P.norm(t)))
                 return (a_[0] if a_ else None, b_[1] if b_ else None)
@@ -603,7 +610,7 @@ class Spaces:
                 rows = [x[0] for x in ts if x and x[0]]
                 if len(rows) >= 2:
                     if any(not self.same(rows[0], r) for r in rows[1:]):
-                        self.bad.append(("elementwise-space", f"`{show(P.norm(t))}`: operands live in spaces {', '.join(rows)}"))
+                        self.bad.append(("elementwise-space", f"`{show(P.norm(t))}`: operands live in spaces {', '.join(rows)}", self.node))
                     else:
                         self.checked.append(show(P.norm(t)))
                 r0 = rows[0] if rows else None
@@ -618,7 +625,7 @@ class Spaces:
                 a_, b_ = self.typ(t[2][0]), self.typ(t[2][1])
                 if a_ and b_ and a_[0] and b_[0]:
                     if not self.same(a_[0], b_[0]):
-                        self.bad.append(("solve-space", f"`{show(P.norm(t))}`: factorised block of space {a_[0]} applied to rows of space {b_[0]}"))
+                        self.bad.append(("solve-space", f"`{show(P.norm(t))}`: factorised block of space {a_[0]} applied to rows of space {b_[0]}", self.node))
                     else:
                         self.checked.append(show(P.norm(t)))
                 return b_ or a_
@@ -629,6 +636,7 @@ class Spaces:
 
     def store(self, e):
         P = self.P
+        self.node = e.node
         tt = self.typ(e.target)
         vt = self.typ(e.value)
         if tt is None:
@@ -640,11 +648,11 @@ class Spaces:
         if it is None or it[0] == "*":
             return
         if tt[0] and not self.same(it[0], tt[0]):
-            self.bad.append(("index-space", f"`{txt}`: axis 0 of `{show(P.norm(e.target))}` lives in space {tt[0]} but the index holds positions relative to space {it[0]}"))
+            self.bad.append(("index-space", f"`{txt}`: axis 0 of `{show(P.norm(e.target))}` lives in space {tt[0]} but the index holds positions relative to space {it[0]}", self.node))
             return
         if vt and vt[0]:
             if not self.same(it[1], vt[0]):
-                self.bad.append(("store-space", f"`{txt} = {show(P.norm(e.value))[:80]}`: rows of space {it[1]} receive a value of space {vt[0]}"))
+                self.bad.append(("store-space", f"`{txt} = {show(P.norm(e.value))[:80]}`: rows of space {it[1]} receive a value of space {vt[0]}", self.node))
             else:
                 self.checked.append(txt + " =")
 
@@ -667,21 +675,15 @@ def _cache_types(S, P, save):
 
 def r6_exits_and_typing(ctx):
     # ---- every exit of apply_uf returns d = d_static + d_dynamic
-    for kd, groups in ((1, ("all modes rigid-body", "diagonal k")), (2, ("full k",))):
+    for kd, grp in ((1, "diagonal k"), (2, "full k")):
         fn, I, paths, names = _au_interp(ctx, kd, None)
-        sol, ufr, m, b, k, nrb, rfm, save = names
         A = Agg(ctx)
-        t_all = op("eq", ("s", nrb), ("idx", ("attr", ("s", k), "shape"), ("c", 0)))
-        cnt = {}
+        key = f"apply_uf [{grp}]: on every exit the returned solution has d = d_static + d_dynamic, formed after the last write into either part"
+        A.req(key, True if paths else None, fn, "no returning path")
+        nexit = set()
         for P in paths:
-            allrb = fact_of(P, t_all)
-            grp = "all modes rigid-body" if allrb is True else ("diagonal k" if kd == 1 else "full k")
-            if grp not in groups:
-                continue
-            cnt[grp] = cnt.get(grp, 0) + 1
-            key = f"apply_uf [{grp}]: the returned solution has d = d_static + d_dynamic, formed after the last write into either part"
             o = P.obj(P.ret)
-            if o is None or o.kind != "ns":
+            if o is None:
                 A.req(key, None, fn, show(P.norm(P.ret)))
                 continue
             d, ds, dd = o.fields.get("d"), o.fields.get("d_static"), o.fields.get("d_dynamic")
@@ -690,11 +692,8 @@ def r6_exits_and_typing(ctx):
                 continue
             sd = [e for e in P.setattrs(P.ret, "d")]
             last = max([e.seq for e in P.stores() if e.target in (ds, dd)] + [0])
-            ok = d == op("add", ds, dd) and sd and sd[-1].seq > last
+            ok = d == op("add", ds, dd) and bool(sd) and sd[-1].seq > last
             A.req(key, ok, sd[-1].node if sd else fn, show(P.norm(d)))
-        for g in groups:
-            A.req(f"apply_uf [{g}]: the returned solution has d = d_static + d_dynamic, formed after the last write into either part",
-                  True if cnt.get(g) else None, fn, "no path of this kind")
         A.flush(fn)
     # ---- index spaces
     for rf in (False, True):
@@ -711,6 +710,7 @@ def r6_exits_and_typing(ctx):
                     if e.kind == "store" and e.target != ("s", save):
                         S.store(e)
                     elif e.kind == "call" and e.name in ("la.lu_factor",):
+                        S.node = e.node
                         S.typ(e.value)
                 ct = _cache_types(S, P, save)
                 if cache is None:
@@ -752,11 +752,11 @@ def r6_exits_and_typing(ctx):
 
 def _flush_spaces(ctx, A, S, q, tag, fn):
     seen = set()
-    for kind, txt in S.bad:
+    for kind, txt, node in S.bad:
         if txt in seen:
             continue
         seen.add(txt)
-        A.req(f"{tag}: {txt.split(':')[0]} full / non-rb / elastic index spaces agree", False, fn, txt, fkey=f"C16-R6|{q}|{kind}|{txt[:80]}")
+        A.req(f"{tag}: {txt.split(':')[0]} full / non-rb / elastic index spaces agree", False, node or fn, txt, fkey=f"C16-R6|{q}|{kind}|{txt[:80]}")
     for txt in S.checked:
         if txt in seen:
             continue
